@@ -308,8 +308,12 @@ def run(ctx, rep, model=True):
             # pipelines are only telling on layouts that are not in box order inside a file
             if i % 4 == 3 or "nonmonotone" in plotgen.describe(spec):
                 break
+        if i % 4 == 1 and len(set(spec["fields"])) == len(spec["fields"]):
+            # a field name with a comma in it (a derivative, an isomer): selections given as strings are split at blanks only
+            spec["fields"][-1] = ["d(u,v)", "Y(C4H6-1,3)"][(i // 4) % 2]; rep.count("field-name-with-comma")
         sib = copy.deepcopy(spec)
-        sib["fields"] = ["sib_a", "sib_b"]; sib["data"] = {"mode": "smallint", "seed": ctx.rng.randrange(1 << 30)}
+        sib["fields"] = ["sib_a", "sib_b"] if i % 8 != 5 else ["sib_a", "rate(H2,O2)"]
+        sib["data"] = {"mode": "smallint", "seed": ctx.rng.randrange(1 << 30)}
         sib["layout"] = plotgen.random_layout(ctx.rng, sib["levels"], "scatter")
         if ks == "cook-combine-back":
             ops = [{"op": "chef", "name": "cooked1", "kept": [], "serial": False},
